@@ -222,6 +222,30 @@ class Ctx:
             raise Infra("node's bundled acorn is not reachable (--expose-internals)")
         return out
 
+
+    # ------------------------------------------------------------- JS engine
+    def engine_run(self, items, timeout=1800):
+        """items: [{id, code, prelude?}] -> {id: {out, end}} from V8 (node vm), engine/run.js."""
+        if shutil.which("node") is None:
+            raise Infra("node is not available: no JavaScript engine")
+        import concurrent.futures
+        procs = min(NCPU, max(1, len(items) // 1500))
+
+        def one(chunk):
+            inp = "\n".join(json.dumps(i, separators=(",", ":")) for i in chunk) + "\n"
+            p = subprocess.run(["node", os.path.join(VERIF, "engine", "run.js")], input=inp, capture_output=True, text=True, timeout=timeout)
+            if p.returncode != 0:
+                raise Infra("engine failed: %s" % p.stderr[-500:])
+            return [json.loads(l) for l in p.stdout.splitlines() if l.strip()]
+        out = {}
+        with concurrent.futures.ThreadPoolExecutor(max_workers=procs) as ex:
+            for rs in ex.map(one, [items[k::procs] for k in range(procs)]):
+                for r in rs:
+                    out[_key(r["id"])] = r
+        if len(out) != len(items):
+            raise Infra("engine answered %d of %d" % (len(out), len(items)))
+        return out
+
     # --------------------------------------------------------------- verdicts
     def violation(self, case, clause, detail=None):
         """Record a violation observed on the REAL code (caller has reproduced it)."""
